@@ -5,7 +5,7 @@
 From Coq Require Import List String Ascii Bool Arith Lia Sorting.Sorted Permutation.
 Import ListNotations.
 Require Import SDJ.Json SDJ.Wire SDJ.Model2 SDJ.Out SDJ.Restore2 SDJ.Split SDJ.SplitM SDJ.SplitMProofs SDJ.ATree
-  SDJ.T2a SDJ.T2b SDJ.T2c SDJ.T2e SDJ.T2h SDJ.T2l SDJ.T2m SDJ.T2o SDJ.Verify SDJ.HolderProofs SDJ.C03Proofs.
+  SDJ.T2a SDJ.T2b SDJ.T2c SDJ.T2e SDJ.T2h SDJ.T2l SDJ.T2m SDJ.T2o SDJ.Verify SDJ.HolderProofs SDJ.C05Proofs SDJ.C03Proofs.
 Local Open Scope string_scope.
 
 Lemma decode_all_strs H dec : forall L ds, decode_all H dec L = Ok ds -> map d_str ds = L.
@@ -79,6 +79,54 @@ Proof.
     cbn [holder_redact h_jwt h_paths h_kb h_redacted]. rewrite <- app_assoc. auto.
 Qed.
 
+(* what presentation() yields, and what every later selection looks like *)
+Definition sel_of (ps : list dpath) (rs : list string) : list string :=
+  map (fun p : dpath => d_str (snd p)) (filter (fun p => negb (withheld ps rs (fst p))) ps).
+
+Lemma presentation_facts token jwt L ds s1 cseg s3 a alg :
+  sd_jwt_parts token = (jwt, L, None) -> jwt_parts_m jwt = Val (s1, cseg, s3) ->
+  o_claims O cseg = Ok (blind t) ->
+  jget "_sd_alg" (blind t) = JStr a -> parse_halg a = Some alg -> o_hash O alg = H ->
+  NoDup L -> (forall s, In s L -> In (H s) (alldigs t) -> In (H s) (hdigs t)) -> decode_all H (o_dec O) L = Ok ds ->
+  exists ps, holder_presentation O token = Val {| h_jwt := jwt; h_redacted := []; h_paths := ps; h_kb := None |} /\
+    forall rs, (forall s, In s (sel_of ps rs) -> In s L) /\ NoDup (sel_of ps rs) /\ exists ds', decode_all H (o_dec O) (sel_of ps rs) = Ok ds'.
+Proof.
+  intros Hp Hjp Hcl Ha Hh Ho HndL Hdecoy Hd.
+  destruct (restore_full_ok_paths H enc (o_dec O) show_nat hash_inj dec_enc t Hwf Hnd Hndh Hheight L ds HndL Hdecoy Hd)
+    as (ps & Hps & Hpl & Hndp & _).
+  exists ps. split.
+  { unfold holder_presentation. rewrite sd_jwt_parts_m_total, Hp. cbn [obind]. rewrite Hjp. cbn [obind]. rewrite Hcl. cbn [of_res obind].
+    rewrite Ha. cbn [jstr_or_empty]. rewrite Hh, Ho, Hps. reflexivity. }
+  intros rs.
+  assert (Hstrs : map d_str ds = L) by (eapply decode_all_strs; eauto).
+  assert (Hsub : forall s, In s (sel_of ps rs) -> In s L).
+  { intros s Hs. unfold sel_of in Hs. apply in_map_iff in Hs as [pd [<- Hpd]]. apply filter_In in Hpd as [Hpd _].
+    rewrite Forall_forall in Hpl. destruct (Hpl _ Hpd) as [Hin _]. rewrite <- Hstrs. apply in_map. assumption. }
+  split; [exact Hsub|]. split.
+  - unfold sel_of.
+    assert (Hnds : NoDup (map (fun p : dpath => d_str (snd p)) ps)).
+    { assert (Hq : map pdig ps = map H (map (fun p : dpath => d_str (snd p)) ps)).
+      { rewrite map_map. apply map_ext_in. intros pd Hpd. unfold pdig. rewrite Forall_forall in Hpl. destruct (Hpl _ Hpd) as [Hin _].
+        clear -Hd Hin. revert ds Hd Hin. induction L as [|s r IH]; cbn; intros ds Hd Hin; [injection Hd as <-; destruct Hin|].
+        destruct (from_base64 H (o_dec O) s) as [d|] eqn:Ef; cbn in Hd; [|discriminate].
+        destruct (decode_all H (o_dec O) r) as [ds'|] eqn:Er; cbn in Hd; [|discriminate]. injection Hd as <-.
+        destruct Hin as [<-|Hin]; [|eapply IH; eauto].
+        unfold from_base64 in Ef. destruct (o_dec O s) as [|j]; [discriminate|]. destruct j as [| | | |xs|]; try discriminate.
+        destruct xs as [|a0 [|b [|c [|]]]]; try discriminate.
+        - injection Ef as <-. reflexivity.
+        - destruct b; try discriminate. destruct (reserved s0); [discriminate|]. injection Ef as <-. reflexivity. }
+      rewrite Hq in Hndp. eapply NoDup_map_inv. exact Hndp. }
+    apply NoDup_map_filter. assumption.
+  - apply decode_all_sub. intros s Hs. eapply decode_all_each; eauto.
+Qed.
+
+Lemma selected_redact_all jwt ps kb rs :
+  selected (redact_all {| h_jwt := jwt; h_redacted := []; h_paths := ps; h_kb := kb |} rs) = sel_of ps rs.
+Proof.
+  destruct (redact_all_fields rs {| h_jwt := jwt; h_redacted := []; h_paths := ps; h_kb := kb |}) as (_ & F2 & _ & F4).
+  unfold selected. rewrite F2, F4. reflexivity.
+Qed.
+
 Theorem present_redact_build_verify token jwt L ds s1 cseg s3 hdr0 a alg (rs : list string) (E : build_env) kbpol :
   sd_jwt_parts token = (jwt, L, None) -> jwt_parts_m jwt = Val (s1, cseg, s3) ->
   o_claims O cseg = Ok (blind t) -> o_jwt O jwt = Val (hdr0, blind t) ->
@@ -94,52 +142,84 @@ Theorem present_redact_build_verify token jwt L ds s1 cseg s3 hdr0 a alg (rs : l
     verifier_verify O (presentation_prefix jwt (selected h)) kbpol = Val (hdr0, drop_alg (proj (ownS H (selected h)) t)).
 Proof.
   intros Hp Hjp Hcl Hj Ha Hh Ho Hcnf HndL Hdecoy Hd Htil.
-  destruct (restore_full_ok_paths H enc (o_dec O) show_nat hash_inj dec_enc t Hwf Hnd Hndh Hheight L ds HndL Hdecoy Hd)
-    as (ps & Hps & Hpl & Hndp & _).
-  exists {| h_jwt := jwt; h_redacted := []; h_paths := ps; h_kb := None |}.
-  split.
-  { unfold holder_presentation. rewrite sd_jwt_parts_m_total, Hp. cbn [obind]. rewrite Hjp. cbn [obind]. rewrite Hcl. cbn [of_res obind].
-    rewrite Ha. cbn [jstr_or_empty]. rewrite Hh, Ho, Hps. reflexivity. }
-  set (h0 := {| h_jwt := jwt; h_redacted := []; h_paths := ps; h_kb := None |}).
-  destruct (redact_all_fields rs h0) as (F1 & F2 & F3 & F4). cbn zeta.
-  unfold h0 at 2 in F1. unfold h0 at 2 in F2. unfold h0 at 2 in F3. unfold h0 at 2 in F4.
+  destruct (presentation_facts token jwt L ds s1 cseg s3 a alg Hp Hjp Hcl Ha Hh Ho HndL Hdecoy Hd) as (ps & Hpres & Hsel).
+  eexists. split; [exact Hpres|]. cbn zeta.
+  destruct (redact_all_fields rs {| h_jwt := jwt; h_redacted := []; h_paths := ps; h_kb := None |}) as (F1 & F2 & F3 & F4).
   cbn [h_jwt h_paths h_kb h_redacted app] in F1, F2, F3, F4.
-  remember (redact_all h0 rs) as h eqn:Eh.
-  split; [exact F4|].
-  assert (Hstrs : map d_str ds = L) by (eapply decode_all_strs; eauto).
-  assert (Hsel_sub : forall s, In s (selected h) -> In s L).
-  { intros s Hs. unfold selected in Hs. apply in_map_iff in Hs as [pd [<- Hpd]]. apply filter_In in Hpd as [Hpd _].
-    rewrite F2 in Hpd. rewrite Forall_forall in Hpl. destruct (Hpl _ Hpd) as [Hin _]. rewrite <- Hstrs. apply in_map. assumption. }
-  split.
-  { unfold holder_build. rewrite F1, Hjp. cbn [obind]. rewrite Hcl. cbn [of_res obind]. rewrite Hcnf. cbn [andb]. reflexivity. }
-  split; [exact Hsel_sub|].
-  (* the built presentation splits back into the JWT and the selected disclosures *)
-  assert (Htil' : Forall (fun x => contains tilde x = false) (jwt :: selected h)).
+  rewrite (selected_redact_all jwt ps None rs). destruct (Hsel rs) as (Hsub & Hndsel & ds' & Hds').
+  split; [exact F4|]. split.
+  { unfold holder_build. rewrite F1, Hjp. cbn [obind]. rewrite Hcl. cbn [of_res obind]. rewrite Hcnf. cbn [andb].
+    rewrite (selected_redact_all jwt ps None rs). reflexivity. }
+  split; [exact Hsub|].
+  assert (Htil' : Forall (fun x => contains tilde x = false) (jwt :: sel_of ps rs)).
   { pose proof (Forall_inv Htil) as Hj0. pose proof (Forall_inv_tail Htil) as HL. constructor; [assumption|]. apply Forall_forall. intros s Hs.
     rewrite Forall_forall in HL. auto. }
-  assert (Hparts : sd_jwt_parts (presentation_prefix jwt (selected h)) = (jwt, selected h, None)).
+  assert (Hparts : sd_jwt_parts (presentation_prefix jwt (sel_of ps rs)) = (jwt, sel_of ps rs, None)).
   { rewrite prefix_is_serialise, sd_jwt_parts_serialise by (assumption || reflexivity). reflexivity. }
-  assert (Hndsel : NoDup (selected h)).
-  { unfold selected. rewrite F2.
-    assert (Hnds : NoDup (map (fun p : dpath => d_str (snd p)) ps)).
-    { assert (Hq : map pdig ps = map H (map (fun p : dpath => d_str (snd p)) ps)).
-      { rewrite map_map. apply map_ext_in. intros pd Hpd. unfold pdig. rewrite Forall_forall in Hpl. destruct (Hpl _ Hpd) as [Hin _].
-        destruct (decode_all_spec H enc (o_dec O) hash_inj dec_enc t Hwf L ds Hd Hdecoy) as [Hm _].
-        (* the digest of a decoded disclosure is the hash of its string *)
-        clear -Hd Hin. revert ds Hd Hin. induction L as [|s r IH]; cbn; intros ds Hd Hin; [injection Hd as <-; destruct Hin|].
-        destruct (from_base64 H (o_dec O) s) as [d|] eqn:Ef; cbn in Hd; [|discriminate].
-        destruct (decode_all H (o_dec O) r) as [ds'|] eqn:Er; cbn in Hd; [|discriminate]. injection Hd as <-.
-        destruct Hin as [<-|Hin]; [|eapply IH; eauto].
-        unfold from_base64 in Ef. destruct (o_dec O s) as [|j]; [discriminate|]. destruct j as [| | | |xs|]; try discriminate.
-        destruct xs as [|a0 [|b [|c [|]]]]; try discriminate.
-        - injection Ef as <-. reflexivity.
-        - destruct b; try discriminate. destruct (reserved s0); [discriminate|]. injection Ef as <-. reflexivity. }
-      rewrite Hq in Hndp. eapply NoDup_map_inv. exact Hndp. }
-    apply NoDup_map_filter. assumption. }
-  destruct (decode_all_sub H (o_dec O) (selected h)) as [ds' Hds'].
-  { intros s Hs. eapply decode_all_each; eauto. }
-  apply (verifier_verify_complete O H enc hash_inj dec_enc t Hwf Hnd Hndh Hheight _ kbpol jwt (selected h) ds' hdr0 a alg); auto.
-  - unfold jhas in Hcnf. unfold jget. destruct (blind t) as [| | | | |kvs]; try reflexivity.
-    destruct (obj_get "cnf" kvs); [discriminate|reflexivity].
+  apply (verifier_verify_complete O H enc hash_inj dec_enc t Hwf Hnd Hndh Hheight _ kbpol jwt (sel_of ps rs) ds' hdr0 a alg); auto.
+  unfold jhas in Hcnf. unfold jget. destruct (blind t) as [| | | | |kvs]; try reflexivity.
+  destruct (obj_get "cnf" kvs); [discriminate|reflexivity].
+Qed.
+
+(* the key-bound variant: key_binding(aud, alg) before build(); the KB-JWT the holder signs is assumed to verify
+   under the bound key and the verifier's key-binding policy (oracles e_sign / o_kb) *)
+Lemma serialise_kb jwt sel kb : (presentation_prefix jwt sel ++ kb)%string = serialise jwt sel kb.
+Proof.
+  rewrite prefix_is_serialise. unfold serialise. rewrite !append_assoc_. reflexivity.
+Qed.
+
+Theorem present_redact_bind_build_verify token jwt L ds s1 cseg s3 hdr0 a alg (rs : list string) (E : build_env) aud jalg kb n e :
+  sd_jwt_parts token = (jwt, L, None) -> jwt_parts_m jwt = Val (s1, cseg, s3) ->
+  o_claims O cseg = Ok (blind t) -> o_jwt O jwt = Val (hdr0, blind t) ->
+  jget "_sd_alg" (blind t) = JStr a -> parse_halg a = Some alg -> o_hash O alg = H ->
+  jhas "cnf" (blind t) = true -> is_null (jget "cnf" (blind t)) = false ->
+  jget "kty" (jget "cnf" (blind t)) = JStr "RSA" -> jget "e" (jget "cnf" (blind t)) = JStr e -> jget "n" (jget "cnf" (blind t)) = JStr n ->
+  NoDup L -> (forall s, In s L -> In (H s) (alldigs t) -> In (H s) (hdigs t)) -> decode_all H (o_dec O) L = Ok ds ->
+  Forall (fun x => contains tilde x = false) (jwt :: L) ->
+  forall ps, holder_presentation O token = Val {| h_jwt := jwt; h_redacted := []; h_paths := ps; h_kb := None |} ->
+  let h := holder_key_binding (redact_all {| h_jwt := jwt; h_redacted := []; h_paths := ps; h_kb := None |} rs) aud jalg in
+  let prefix := presentation_prefix jwt (selected h) in
+  e_sign E (kb_header jalg) (kb_claims aud (e_nonce E) (e_iat E) (H prefix)) = Val kb ->
+  kb <> "" -> contains tilde kb = false ->
+  o_kb O kb n e = Val (kb_header jalg, kb_claims aud (e_nonce E) (e_iat E) (H prefix)) ->
+  holder_build O E h = Val (prefix ++ kb)%string /\
+  verifier_verify O (prefix ++ kb)%string true = Val (hdr0, drop_alg (proj (ownS H (selected h)) t)).
+Proof.
+  intros Hp Hjp Hcl Hj Ha Hh Ho Hcnf Hnn Hkty He Hn HndL Hdecoy Hd Htil ps Hpres h prefix Hsign Hkbne Hkbt Hokb.
+  destruct (presentation_facts token jwt L ds s1 cseg s3 a alg Hp Hjp Hcl Ha Hh Ho HndL Hdecoy Hd) as (ps' & Hpres' & Hsel).
+  rewrite Hpres in Hpres'. injection Hpres' as <-.
+  destruct (redact_all_fields rs {| h_jwt := jwt; h_redacted := []; h_paths := ps; h_kb := None |}) as (F1 & F2 & F3 & F4).
+  cbn [h_jwt h_paths h_kb h_redacted app] in F1, F2, F3, F4.
+  assert (Hselq : selected h = sel_of ps rs).
+  { unfold h, selected, holder_key_binding. cbn [h_paths h_redacted]. rewrite F2, F4. reflexivity. }
+  destruct (Hsel rs) as (Hsub & Hndsel & ds' & Hds').
+  assert (Hbuild : holder_build O E h = Val (prefix ++ kb)%string).
+  { assert (Hjwt : h_jwt h = jwt) by (unfold h; cbn [holder_key_binding h_jwt]; exact F1).
+    assert (Hkb : h_kb h = Some (aud, jalg)) by reflexivity.
+    unfold holder_build. rewrite Hjwt, Hjp. cbn [obind]. rewrite Hcl. cbn [of_res obind]. rewrite Hcnf, Hkb. cbn [andb].
+    rewrite Ha. cbn [jstr_or_empty]. rewrite Hh, Ho. change (presentation_prefix jwt (selected h)) with prefix.
+    rewrite Hsign. reflexivity. }
+  split; [exact Hbuild|].
+  assert (Htil' : Forall (fun x => contains tilde x = false) (jwt :: sel_of ps rs)).
+  { pose proof (Forall_inv Htil) as Hj0. pose proof (Forall_inv_tail Htil) as HL. constructor; [assumption|]. apply Forall_forall. intros s Hs.
+    rewrite Forall_forall in HL. auto. }
+  unfold prefix. rewrite Hselq, serialise_kb.
+  assert (Hparts : sd_jwt_parts (serialise jwt (sel_of ps rs) kb) = (jwt, sel_of ps rs, Some kb)).
+  { rewrite sd_jwt_parts_serialise by assumption. destruct (String.eqb_spec kb ""); [contradiction|reflexivity]. }
+  assert (Hdrop : drop_kb (serialise jwt (sel_of ps rs) kb) = presentation_prefix jwt (sel_of ps rs)).
+  { rewrite drop_kb_serialise by assumption. symmetry. apply prefix_is_serialise. }
+  unfold verifier_verify.
+  assert (Hraw : verifier_verify_raw O (serialise jwt (sel_of ps rs) kb) true = Val (hdr0, blind t, sel_of ps rs)).
+  { apply verifier_verify_raw_iff. exists jwt, (Some kb), a, alg. repeat split; try assumption.
+    right. split; [unfold kb_required; rewrite Hnn; reflexivity|].
+    exists kb, (kb_header jalg), (kb_claims aud (e_nonce E) (e_iat E) (H (presentation_prefix jwt (sel_of ps rs)))), (H (presentation_prefix jwt (sel_of ps rs))).
+    split; [reflexivity|]. split; [reflexivity|]. split.
+    - apply verify_kb_iff. exists n, e. repeat split; try assumption.
+      + unfold prefix in Hokb. rewrite Hselq in Hokb. exact Hokb.
+    - split; [reflexivity|]. rewrite Hdrop, Ho. reflexivity. }
+  rewrite Hraw. cbn [obind]. unfold restore_and_strip. rewrite Ha. cbn [jstr_or_empty]. rewrite Hh, Ho.
+  destruct (restore_full_ok H enc (o_dec O) show_nat hash_inj dec_enc t Hwf Hnd Hndh Hheight (sel_of ps rs) ds' Hndsel) as [ps2 Hok]; [|assumption|].
+  { intros s Hs. apply Hdecoy. apply Hsub. assumption. }
+  rewrite Hok. cbn [of_res obind fst snd]. rewrite (remove_digests_view H enc t Hwf). reflexivity.
 Qed.
 End C02.
